@@ -494,4 +494,306 @@ theorem runActs_spec (flt : Fault) (base : Path) : ∀ (acts : List Act) (w : Wo
             exact (List.nodup_cons.1 hnd).1 hr'
         · exact p2 hok hnd' b hb'
 
+/-! ## after a successful run the staging directory holds exactly `treeOf` -/
+
+theorem treeOf_exact (flt : Fault) (s : Name) (acts : List Act) (w : World)
+    (hroot : w.fs [s] = some .dir) (hfresh : ∀ q, q ≠ [] → w.fs (s :: q) = none) (hwf : WF w.fs)
+    (hnd : (writeRels acts).Nodup) (hok : (runActs flt [s] w acts).2 = none) :
+    ∀ q, (runActs flt [s] w acts).1.fs (s :: q) = treeOf acts q := by
+  obtain ⟨f, d, _, wf, p⟩ := runActs_spec flt [s] acts w
+  have post := p hok hnd
+  have wf' := wf hwf
+  intro q
+  unfold treeOf
+  by_cases hq : q = []
+  · subst hq; simp only [if_true]; exact d _ hroot
+  · rw [if_neg hq]
+    cases hfind : acts.findSome? (fun a => match a with
+        | .write r c => if r = q then some c else none
+        | .mkdirAll _ => none) with
+    | some c =>
+      simp only
+      obtain ⟨a, ha, hfa⟩ := List.exists_of_findSome?_eq_some hfind
+      cases a with
+      | mkdirAll _ => cases hfa
+      | write r c' =>
+        simp only at hfa
+        by_cases hr : r = q
+        · rw [if_pos hr] at hfa
+          injection hfa with hc
+          subst hr; subst hc
+          have := post _ ha
+          simpa [Act.post] using this
+        · rw [if_neg hr] at hfa; cases hfa
+    | none =>
+      simp only
+      rw [List.findSome?_eq_none_iff] at hfind
+      by_cases hany : acts.any (fun a => q.isPrefixOf a.rel) = true
+      · rw [if_pos hany]
+        rw [List.any_eq_true] at hany
+        obtain ⟨a, ha, hpre⟩ := hany
+        rw [List.isPrefixOf_iff_prefix] at hpre
+        obtain ⟨t, ht⟩ := hpre
+        have hpa := post a ha
+        have hsq : s :: q ≠ [] := by simp
+        cases a with
+        | mkdirAll rel =>
+          simp only [Act.rel] at ht
+          simp only [Act.post, List.singleton_append, isDir_cons] at hpa
+          by_cases ht0 : t = []
+          · subst ht0; rw [List.append_nil] at ht; rw [ht]; exact hpa
+          · refine wf_prefix_dir wf' (s :: q) hsq t.length t rfl ht0 ?_
+            rw [List.cons_append, ht, hpa]; simp
+        | write rel c =>
+          simp only [Act.rel] at ht
+          simp only [Act.post, List.singleton_append] at hpa
+          have ht0 : t ≠ [] := by
+            intro h0; subst h0
+            rw [List.append_nil] at ht
+            have := hfind _ ha
+            simp only [ht, if_true] at this
+            cases this
+          refine wf_prefix_dir wf' (s :: q) hsq t.length t rfl ht0 ?_
+          rw [List.cons_append, ht, hpa]; simp
+      · rw [if_neg hany]
+        rcases f (s :: q) with h | ⟨_, a, ha, hpre⟩
+        · rw [h]; exact hfresh q hq
+        · exfalso; apply hany
+          rw [List.any_eq_true]
+          refine ⟨a, ha, ?_⟩
+          rw [List.isPrefixOf_iff_prefix]
+          have : s :: q <+: s :: a.rel := by simpa using hpre
+          exact (List.cons_prefix_cons.1 this).2
+
+/-! ## staging directory allocation, rename -/
+
+theorem allocStaging_spec (flt : Fault) (stg : Nat → Name) : ∀ (fuel k : Nat) (w : World),
+    ((allocStaging flt stg fuel k w).2 = none ∧ (allocStaging flt stg fuel k w).1.fs = w.fs) ∨
+    (∃ s, (allocStaging flt stg fuel k w).2 = some s ∧ (∃ k', s = stg k') ∧ w.fs [s] = none ∧
+      (allocStaging flt stg fuel k w).1.fs = upd w.fs [s] .dir) := by
+  intro fuel
+  induction fuel with
+  | zero => intro k w; left; exact ⟨rfl, rfl⟩
+  | succ fuel ih =>
+    intro k w
+    have hm := sysMkdir_spec flt w [stg k]
+    unfold allocStaging
+    simp only
+    rcases hr : sysMkdir flt w [stg k] with ⟨w1, r⟩
+    rw [hr] at hm
+    simp only at hm ⊢
+    cases r with
+    | none =>
+      rcases hm with ⟨h, _⟩ | ⟨_, _, hn, _, hfs⟩
+      · exact absurd rfl h
+      · right; exact ⟨stg k, rfl, ⟨k, rfl⟩, hn, hfs⟩
+    | some e =>
+      have hfs : w1.fs = w.fs := by
+        rcases hm with ⟨_, h⟩ | ⟨h, _⟩
+        · exact h
+        · cases h
+      cases e with
+      | eexist =>
+        simp only
+        have := ih (k + 1) w1
+        rw [hfs] at this
+        exact this
+      | enoent => left; exact ⟨rfl, hfs⟩
+      | other => left; exact ⟨rfl, hfs⟩
+
+def movedFs (fs : FS) (s t : Name) : FS := fun q =>
+  match q with
+  | c :: r => if c = t then fs (s :: r) else if c = s then none else fs q
+  | [] => fs q
+
+theorem sysRename_spec (flt : Fault) (w : World) (s t : Name) :
+    ((sysRename flt w s t).2 ≠ none ∧ (sysRename flt w s t).1.fs = w.fs) ∨
+    ((sysRename flt w s t).2 = none ∧ w.fs [t] = none ∧ (sysRename flt w s t).1.fs = movedFs w.fs s t) := by
+  unfold sysRename
+  simp only
+  cases hf : flt .rename (tick .rename w).2 with
+  | some e => left; simp
+  | none =>
+    simp only [tick_fs]
+    by_cases h1 : (w.fs [s] != some Node.dir) = true
+    · left; simp [h1]
+    · simp only [h1, Bool.false_eq_true, if_false]
+      cases ht : w.fs [t] with
+      | some n => left; simp
+      | none => right; exact ⟨rfl, rfl, rfl⟩
+
+/-! ## the tables -/
+
+theorem writeRels_map_mkdirAll (l : List Path) : writeRels (l.map Act.mkdirAll) = [] := by
+  induction l with
+  | nil => rfl
+  | cons a l ih => simp [writeRels]
+
+theorem writeRels_map_write {α : Type} (l : List α) (g : α → Path) (h : α → List Char) :
+    writeRels (l.map (fun f => Act.write (g f) (h f))) = l.map g := by
+  induction l with
+  | nil => rfl
+  | cons a l ih =>
+    simp only [writeRels, List.map_cons, List.filterMap_cons] at ih ⊢
+    rw [ih]
+
+theorem writeRels_append (a b : List Act) : writeRels (a ++ b) = writeRels a ++ writeRels b := by
+  simp [writeRels, List.filterMap_append]
+
+theorem projectActs_writeRels (name : Name) (keys : Keys) :
+    writeRels (projectActs name keys) = Generated.projectFiles.map (·.1) ++ [keypairRel name] := by
+  unfold projectActs
+  rw [writeRels_append, writeRels_append, writeRels_map_mkdirAll, writeRels_map_write]
+  simp [writeRels]
+
+theorem projectFiles_paths_ok :
+    (decide (Generated.projectFiles.map (·.1)).Nodup &&
+     (Generated.projectFiles.map (·.1)).all (fun p => !Generated.keypairDir.isPrefixOf p)) = true := by
+  decide +kernel
+
+theorem projectActs_nodup (name : Name) (keys : Keys) : (writeRels (projectActs name keys)).Nodup := by
+  rw [projectActs_writeRels]
+  have h := projectFiles_paths_ok
+  simp only [Bool.and_eq_true, decide_eq_true_eq, List.all_eq_true, Bool.not_eq_true'] at h
+  rw [List.nodup_append]
+  refine ⟨h.1, by simp, ?_⟩
+  intro a ha b hb
+  simp only [List.mem_singleton] at hb
+  subst hb
+  intro heq
+  subst heq
+  have := h.2 _ ha
+  have hp : Generated.keypairDir.isPrefixOf (keypairRel name) = true := by
+    rw [List.isPrefixOf_iff_prefix]; exact List.prefix_append _ _
+  rw [hp] at this; cases this
+
+/-! ## scaffold_project -/
+
+theorem removeTop_restore {fs fs2 : FS} {s : Name} (habs : ∀ r, fs (s :: r) = none)
+    (hframe : ∀ q, q.head? ≠ some s → fs2 q = fs q) : removeTop fs2 s = fs := by
+  funext q
+  cases q with
+  | nil => simp only [removeTop]; exact hframe [] (by simp)
+  | cons c r =>
+    simp only [removeTop]
+    by_cases hc : c = s
+    · subst hc; simp [habs r]
+    · rw [if_neg hc]; exact hframe _ (by simpa using hc)
+
+/-- All-or-nothing for `scaffold_project`, for every fault plan. -/
+theorem scaffold_spec (flt : Fault) (keys : Keys) (stg : Nat → Name) (name : Name) (w : World)
+    (hwf : WF w.fs) (hstg : ∀ k, stg k ≠ name) :
+    ((scaffoldProject flt keys stg name w).2 = .ok ∧ w.fs [name] = none ∧
+      (scaffoldProject flt keys stg name w).1.fs = graft w.fs name (projectTree name keys)) ∨
+    ((scaffoldProject flt keys stg name w).2 = .err ∧ (scaffoldProject flt keys stg name w).1.fs = w.fs) := by
+  unfold scaffoldProject
+  by_cases hex : pathExists w.fs [name] = true
+  · rw [if_pos hex]; right; exact ⟨rfl, rfl⟩
+  · rw [if_neg hex]
+    have ha := allocStaging_spec flt stg Generated.stagingAttempts 0 w
+    rcases hr : allocStaging flt stg Generated.stagingAttempts 0 w with ⟨w1, r⟩
+    rw [hr] at ha
+    simp only at ha ⊢
+    cases r with
+    | none =>
+      right
+      rcases ha with ⟨_, h⟩ | ⟨s, h, _⟩
+      · exact ⟨rfl, h⟩
+      · cases h
+    | some s =>
+      simp only
+      rcases ha with ⟨h, _⟩ | ⟨s', hs', ⟨k', hk'⟩, hnone, hfs1⟩
+      · cases h
+      · injection hs' with hs'
+        subst hs'
+        have hsn : s ≠ name := by rw [hk']; exact hstg k'
+        have habs := wf_absent hwf hnone
+        have wf1 : WF w1.fs := by rw [hfs1]; exact wf_upd_dir hwf (isDir_nil _)
+        have hroot : w1.fs [s] = some .dir := by rw [hfs1]; exact upd_same ..
+        have hfresh : ∀ q, q ≠ [] → w1.fs (s :: q) = none := by
+          intro q hq
+          rw [hfs1, upd_other _ _ (by simpa using hq)]
+          exact habs q
+        have hspec := runActs_spec flt [s] (projectActs name keys) w1
+        have hexact := treeOf_exact flt s (projectActs name keys) w1 hroot hfresh wf1 (projectActs_nodup name keys)
+        rcases hr2 : runActs flt [s] w1 (projectActs name keys) with ⟨w2, r2⟩
+        rw [hr2] at hspec hexact
+        simp only at hspec hexact ⊢
+        obtain ⟨f, d, _, _, _⟩ := hspec
+        have hframe : ∀ q, q.head? ≠ some s → w2.fs q = w.fs q := by
+          intro q hq
+          rcases f q with h | ⟨hne, a, _, hpre⟩
+          · rw [h, hfs1]
+            apply upd_other
+            intro h'; rw [h'] at hq; simp at hq
+          · exfalso
+            cases q with
+            | nil => exact hne rfl
+            | cons c r =>
+              have : c :: r <+: s :: a.rel := by simpa using hpre
+              have := (List.cons_prefix_cons.1 this).1
+              subst this; simp at hq
+        cases r2 with
+        | some e =>
+          simp only
+          right; exact ⟨trivial, removeTop_restore habs hframe⟩
+        | none =>
+          simp only
+          have hrn := sysRename_spec flt w2 s name
+          rcases hr3 : sysRename flt w2 s name with ⟨w3, r3⟩
+          rw [hr3] at hrn
+          simp only at hrn ⊢
+          cases r3 with
+          | some e =>
+            simp only
+            right
+            rcases hrn with ⟨_, h⟩ | ⟨h, _⟩
+            · refine ⟨trivial, removeTop_restore habs ?_⟩
+              intro q hq; rw [h]; exact hframe q hq
+            · cases h
+          | none =>
+            simp only
+            left
+            rcases hrn with ⟨h, _⟩ | ⟨_, htn, hmoved⟩
+            · exact absurd rfl h
+            · have hname : w.fs [name] = none := by
+                rw [← hframe [name] (by simpa using fun h => hsn h.symm)]; exact htn
+              refine ⟨trivial, hname, ?_⟩
+              rw [hmoved]
+              funext q
+              cases q with
+              | nil => simp only [movedFs, graft]; exact hframe [] (by simp)
+              | cons c r =>
+                simp only [movedFs, graft]
+                by_cases hc : c = name
+                · subst hc; simp only [if_true]; exact hexact rfl r
+                · rw [if_neg hc, if_neg hc]
+                  by_cases hcs : c = s
+                  · subst hcs; simp only [if_true]; exact (habs r).symm
+                  · rw [if_neg hcs]; exact hframe _ (by simpa using hcs)
+
+theorem printLines_fs (flt : Fault) : ∀ (n : Nat) (w : World), (printLines flt n w).1.fs = w.fs := by
+  intro n
+  induction n with
+  | zero => intro w; rfl
+  | succ n ih =>
+    intro w
+    unfold printLines
+    simp only
+    cases hf : flt .write (tick .write w).2 with
+    | some e => simp
+    | none => simp only; rw [ih]; simp
+
+theorem printLines_status (flt : Fault) : ∀ (n : Nat) (w : World), (printLines flt n w).2 ≠ .err := by
+  intro n
+  induction n with
+  | zero => intro w; simp [printLines]
+  | succ n ih =>
+    intro w
+    unfold printLines
+    simp only
+    cases hf : flt .write (tick .write w).2 with
+    | some e => simp
+    | none => simp only; exact ih _
+
 end Cli
